@@ -186,6 +186,13 @@ def run(ctx):
              f"the only counter(s) the expansion cut tests ({sorted(tested)}) are restored in the finally of {b.short}: they bound the nesting depth; "
              f"a pure/enqueueActions callback that returns itself twice expands 2**(MAX_ACTION_DEPTH+1) times before every branch is cut, "
              f"so send()/start() do not return in any practical time", b.node)
+        for a in monotone:
+            reinit = [w for f_ in roles(ctx, v).funcs if f_.name != "__init__" for w in attr_writes(f_)
+                      if w.attr == a and w.op == "assign" and isinstance(getattr(w.node, "value", None), ast.Constant)]
+            c.ob("R6", bool(reinit), b, f"{v}:expansion-budget-renewed:{a}",
+                 f"the expansion budget '{a}' is re-initialised for every top-level action" if reinit else
+                 f"the expansion counter '{a}' only ever grows: once an interpreter has performed its budget of nested expansions over its whole "
+                 f"lifetime every later choose / pure / enqueueActions is cut, although chains shorter than the bound must run to their natural end", b.node)
     cf = p.method("BaseInterpreter", "_collect_builtin_followups")
     tests = [x for x in own_nodes(cf.node) if isinstance(x, ast.If) and "MAX_ACTION_DEPTH" in norm(x.test)]
     ok = bool(tests) and all(any(isinstance(s, ast.Return) for s in t.body) for t in tests)
